@@ -14,28 +14,28 @@ COQ_FN = {'probability_density': 'c13_pdf', 'pdf': 'c13_pdf', 'cumulative_distri
 MVN_FN = {'c13_pdf': 'pdf', 'c13_cdf': 'cdf', 'c13_logpdf': 'pdf'}
 ERRMAP = {'NotFittedError': 'NotFittedError', 'ValueError_shape': 'ValueError', 'ValueError_no_arrays': 'ValueError'}
 IMPORTS = 'From Cop Require Import Model.Scores.\nFrom CopRun Require Import {gen}.'
-VM_HDR = 'From Coq Require Import String.\nFrom Coq Require Import List Bool Arith.\n{imports}\nImport ListNotations.\n'
+VM_HDR = 'From Coq Require Import String.\nFrom Coq Require Import List Bool Arith ZArith.\n{imports}\nImport ListNotations.\n'
 
 # evaluation instance over the hand-written model, used ONLY when the generated definitions do not compile any more
 # (translation refused / bridge broken): the correspondence then still yields a concrete failing input
 FALLBACK = '''From Coq Require Import String.
-From Coq Require Import List Bool Arith.
+From Coq Require Import List Bool Arith ZArith.
 From Cop Require Import Model.Scores.
 Import ListNotations.
 Inductive ptok :=
-| Pv (fn : string) (allow_singular : bool) (cov : nat) (row : list (nat * nat))
+| Pv (fn : string) (allow_singular : bool) (cov : nat) (row : list (nat * Z))
 | Pun (f : string) (p : ptok).
-Definition tok_mvn (fn : string) (scores : list (list (nat * nat))) (c : nat) (allow : bool)
+Definition tok_mvn (fn : string) (scores : list (list (nat * Z))) (c : nat) (allow : bool)
   : result (list ptok) := Ok (map (Pv fn allow c) scores).
-Definition tok_model (is_fitted : bool) (cols : list nat) : model nat nat (nat * nat) nat :=
+Definition tok_model (is_fitted : bool) (cols : list Z) : model Z Z (nat * Z) nat :=
   {| fitted := is_fitted; columns := cols;
      univariates := map (fun j v => (j, v)) (seq 0 (length cols)); correlation := 7 |}.
-Definition c13_pdf (b : bool) (cols : list nat) (X : container nat nat) :=
-  probability_density nat nat (nat * nat) Nat.eqb nat ptok (tok_mvn "pdf") (tok_model b cols) X.
-Definition c13_cdf (b : bool) (cols : list nat) (X : container nat nat) :=
-  cumulative_distribution nat nat (nat * nat) Nat.eqb nat ptok (fun s c => tok_mvn "cdf" s c false) (tok_model b cols) X.
-Definition c13_logpdf (b : bool) (cols : list nat) (X : container nat nat) :=
-  log_probability_density nat nat (nat * nat) Nat.eqb nat ptok (tok_mvn "pdf") (Pun "log") (tok_model b cols) X.
+Definition c13_pdf (b : bool) (cols : list Z) (X : container Z Z) :=
+  probability_density Z Z (nat * Z) Z.eqb nat ptok (tok_mvn "pdf") (tok_model b cols) X.
+Definition c13_cdf (b : bool) (cols : list Z) (X : container Z Z) :=
+  cumulative_distribution Z Z (nat * Z) Z.eqb nat ptok (fun s c => tok_mvn "cdf" s c false) (tok_model b cols) X.
+Definition c13_logpdf (b : bool) (cols : list Z) (X : container Z Z) :=
+  log_probability_density Z Z (nat * Z) Z.eqb nat ptok (tok_mvn "pdf") (Pun "log") (tok_model b cols) X.
 '''
 
 
@@ -593,7 +593,7 @@ def run(ctx):
     ncols = {name: [10 * (j + 1) for j in range(info['d'])] for name, m, df, info in zoo}
     exprs = [coq_expr(c, ncols[c['model']]) for c in cs]
     imports = IMPORTS.format(gen=gen)
-    outs = cases.run_vm_cases(ctx, 'Cases_C13', imports, exprs, per_file=40, hdr=VM_HDR)
+    outs = cases.run_vm_cases(ctx, 'Cases_C13', imports, exprs, per_file=40, hdr=VM_HDR, scope_open='Open Scope Z_scope.')
     sent = np.random.default_rng(ctx.seed + 4242)
     from copulas.multivariate import GaussianMultivariate
     n_ok = 0
